@@ -64,7 +64,9 @@ Inductive fpc :=
 Inductive fevent := EInv (t : nat) (o : fop) | ERes (t : nat) (r : N).
 
 Record fthread := mkFT { ft_pc : fpc; ft_prog : list fop; ft_res : list N (* most recent first *) }.
-Record fstate := mkFS { fs_heap : list fnode; fs_free : list nat; fs_thr : list fthread; fs_log : list fevent (* most recent first *) }.
+(* fs_free: the head word of the worker's free list (tc->cache): 0 = empty, ptr_code i = node i; the list itself lives in the
+   freed nodes' own memory (first word = value = the next free node), exactly as in qt_mpool: a node freed twice makes it cyclic *)
+Record fstate := mkFS { fs_heap : list fnode; fs_free : N; fs_thr : list fthread; fs_log : list fevent (* most recent first *) }.
 Record policy := mkPol { pol_atomic : bool; pol_recycle : bool }.
 Definition pol_code : policy := mkPol false true.      (* the code as it is *)
 Definition pol_patch : policy := mkPol true false.     (* the proposed patch *)
@@ -95,20 +97,23 @@ Fixpoint upd_fthr (l : list fthread) (t : nat) (th : fthread) : list fthread :=
   end.
 
 (* how a pointer to node i reads when it is looked at as a key / value (canonical form of an address) *)
-Definition ptr_code (i : nat) : N := (1152921504606846976 + N.of_nat i)%N.
+Definition ptr_base : N := 1152921504606846976%N.
+Definition ptr_code (i : nat) : N := (ptr_base + N.of_nat i)%N.
+Definition ptr_node (w : N) : nat := N.to_nat (w - ptr_base).
 
-(* qt_mpool_free: n->next = cache (first word = value), n->block_tail = cache ? cache->block_tail : n (second word = key) *)
-Definition do_free (h : list fnode) (fr : list nat) (n : nat) : list fnode * list nat :=
-  let v := match fr with [] => 0%N | hd :: _ => ptr_code hd end in
-  let k := match fr with [] => ptr_code n | hd :: _ => fkey h hd end in
-  (set_kv h n k v, n :: fr).
+(* qt_mpool_free: n->next = cache (first word = value), n->block_tail = cache ? cache->block_tail : n (second word = key);
+   cache = n *)
+Definition do_free (h : list fnode) (fr : N) (n : nat) : list fnode * N :=
+  let k := if (fr =? 0)%N then ptr_code n else if (ptr_base <=? fr)%N then fkey h (ptr_node fr) else 0%N in
+  (set_kv h n k fr, ptr_code n).
 
-(* qt_mpool_alloc: pop the cache, else the next item of the block (a node nobody has seen) *)
-Definition do_alloc (h : list fnode) (fr : list nat) : nat * list fnode * list nat :=
-  match fr with
-  | n :: r => (n, h, r)
-  | [] => (length h, h ++ [mkF 0 0 0 None false], [])
-  end.
+(* qt_mpool_alloc: cache ? (pop: cache = cache->next, read from the node's first word) : the next item of the block (a node
+   nobody has seen).  A cache word that is not a node (the first word of a node that was on the list twice and has been
+   re-initialised in between) is dereferenced by the real code: the machine stops. *)
+Definition do_alloc (h : list fnode) (fr : N) : option (nat * list fnode * N) :=
+  if (fr =? 0)%N then Some (length h, h ++ [mkF 0 0 0 None false], 0%N)
+  else if (ptr_base <=? fr)%N then Some (ptr_node fr, h, fval h (ptr_node fr))
+  else None.
 
 Definition word_eqb (a b : option nat * bool) : bool := opt_eqb (fst a) (fst b) && Bool.eqb (snd a) (snd b).
 
@@ -121,14 +126,14 @@ Section Machine.
   Definition fderef (h : list fnode) (start : nat) (prev : option nat) : option nat * bool :=
     match prev with None => (Some start, false) | Some p => (fnext h p, fmark h p) end.
 
-  Definition upd_t (s : fstate) (t : nat) (th : fthread) (h : list fnode) (fr : list nat) (log : list fevent) : fstate :=
+  Definition upd_t (s : fstate) (t : nat) (th : fthread) (h : list fnode) (fr : N) (log : list fevent) : fstate :=
     mkFS h fr (upd_fthr (fs_thr s) t th) log.
   Definition fgoto (s : fstate) (t : nat) (th : fthread) (p : fpc) : fstate :=
     upd_t s t (mkFT p (ft_prog th) (ft_res th)) (fs_heap s) (fs_free s) (fs_log s).
-  Definition fgoto_h (s : fstate) (t : nat) (th : fthread) (p : fpc) (h : list fnode) (fr : list nat) : fstate :=
+  Definition fgoto_h (s : fstate) (t : nat) (th : fthread) (p : fpc) (h : list fnode) (fr : N) : fstate :=
     upd_t s t (mkFT p (ft_prog th) (ft_res th)) h fr (fs_log s).
   (* the operation returns r *)
-  Definition ffinish (s : fstate) (t : nat) (th : fthread) (r : N) (h : list fnode) (fr : list nat) : fstate :=
+  Definition ffinish (s : fstate) (t : nat) (th : fthread) (r : N) (h : list fnode) (fr : N) : fstate :=
     upd_t s t (mkFT QIdle (tl (ft_prog th)) (r :: ft_res th)) h fr (ERes t r :: fs_log s).
 
   (* qt_lf_list_find returned the pointer value fv (0 = NULL) with outputs (prev, cur, next) *)
@@ -171,11 +176,15 @@ Section Machine.
         let log := EInv t o :: fs_log s in
         match o with
         | FPia _ _ _ =>
-          let a := do_alloc h fr in
-          Some (upd_t s t (mkFT (QAtHash (CPia (fst (fst a)))) (ft_prog th) (ft_res th)) (snd (fst a)) (snd a) log)
+          match do_alloc h fr with
+          | Some a => Some (upd_t s t (mkFT (QAtHash (CPia (fst (fst a)))) (ft_prog th) (ft_res th)) (snd (fst a)) (snd a) log)
+          | None => None
+          end
         | FPut _ _ _ =>
-          let a := do_alloc h fr in
-          Some (upd_t s t (mkFT (QAtHash (CPut (fst (fst a)))) (ft_prog th) (ft_res th)) (snd (fst a)) (snd a) log)
+          match do_alloc h fr with
+          | Some a => Some (upd_t s t (mkFT (QAtHash (CPut (fst (fst a)))) (ft_prog th) (ft_res th)) (snd (fst a)) (snd a) log)
+          | None => None
+          end
         | FGet _ _ => Some (upd_t s t (mkFT (QAtHash CGet) (ft_prog th) (ft_res th)) h fr log)
         | FDel _ _ => Some (upd_t s t (mkFT (QAtHash (if pol_atomic pol then CDel 0%N else CDelGet)) (ft_prog th) (ft_res th)) h fr log)
         end
@@ -306,5 +315,14 @@ Fixpoint fchain (i : nat) (l : list (N * N * N)) : list fnode :=
   | [] => []
   | (so, k, v) :: t => mkF so k v (match t with [] => None | _ => Some (S i) end) false :: fchain (S i) t
   end.
+(* the free list as a list: follow the first words from the head; None = a word that is not a node *)
+Fixpoint ffree_walk (fuel : nat) (h : list fnode) (w : N) : list (option nat) :=
+  match fuel with
+  | O => []
+  | S f => if (w =? 0)%N then [] else if (ptr_base <=? w)%N then Some (ptr_node w) :: ffree_walk f h (fval h (ptr_node w)) else [None]
+  end.
+Definition ffree (s : fstate) : list (option nat) := ffree_walk 64 (fs_heap s) (fs_free s).
+
+(* freenodes: the nodes of the pool's free list, head first, with their words as they are in memory (value = next free node) *)
 Definition finit (l : list (N * N * N)) (freenodes : list fnode) (progs : list (list fop)) : fstate :=
-  mkFS (fchain 0 l ++ freenodes) (seq (length l) (length freenodes)) (map (fun p => mkFT QIdle p []) progs) [].
+  mkFS (fchain 0 l ++ freenodes) (match freenodes with [] => 0%N | _ => ptr_code (length l) end) (map (fun p => mkFT QIdle p []) progs) [].
